@@ -617,6 +617,7 @@ type decoderI interface {
 
 	decode(v interface{})
 	decodeAs(v interface{}, t reflect.Type, ext bool)
+	startDepth(depth int16) // a side decoder continues the depth count of the decoder that spawned it
 
 	interfaceExtConvertAndDecode(v interface{}, ext InterfaceExt)
 }
@@ -750,6 +751,10 @@ func (d *decoderBase) depthIncr() {
 
 func (d *decoderBase) depthDecr() {
 	d.depth--
+}
+
+func (d *decoderBase) startDepth(depth int16) {
+	d.depth = depth
 }
 
 func (d *decoderBase) arrayStart(v int) int {
@@ -954,8 +959,11 @@ func sideDecode(h Handle, p *sync.Pool, fn func(decoderI)) {
 	fn(s)
 }
 
-func oneOffDecode(sd decoderI, v interface{}, in []byte, basetype reflect.Type, ext bool) {
+func oneOffDecode(sd decoderI, v interface{}, in []byte, basetype reflect.Type, ext bool, depth int16) {
 	sd.ResetBytes(in)
+	// the payload is nested inside the value the caller is decoding: continue its depth count,
+	// so that MaxDepth bounds extensions nested inside extension payloads too
+	sd.startDepth(depth)
 	sd.decodeAs(v, basetype, ext)
 	// d.sideDecoder(xbs)
 	// d.sideDecode(rv, basetype)
